@@ -228,6 +228,12 @@ func master(o *options, rawArgs []string) int {
 	for w := 0; w < o.workers; w++ {
 		c := exec.Command(self, append([]string{"worker"}, rawArgs...)...)
 		c.Stderr = os.Stderr
+		if o.out != "" {
+			if ef, err := os.Create(fmt.Sprintf("%s.stderr.%d", o.out, w)); err == nil {
+				c.Stderr = ef
+				defer ef.Close()
+			}
+		}
 		stdin, _ := c.StdinPipe()
 		stdout, _ := c.StdoutPipe()
 		if err := c.Start(); err != nil {
